@@ -148,17 +148,18 @@ class SystemOfEquations(Module):
         # partitioning
         Aff = A[self.f, :][:, self.f]
         self.Afp = A[self.f, :][:, self.p]
+        self.Apf = A[self.p, :][:, self.f]
         self.App = A[self.p, :][:, self.p]
 
         # solve
         self.module_LinSolve.sig_in[0].state = Aff
-        self.module_LinSolve.sig_in[1].state = bf - self.Afp * xp
+        self.module_LinSolve.sig_in[1].state = bf - self.Afp @ xp
         self.module_LinSolve.response()
         xf = self.module_LinSolve.sig_out[0].state
 
         # set output
         self.x[self.f, ...] = xf
-        b[self.p, ...] = self.Afp.T * xf + self.App * xp
+        b[self.p, ...] = self.Apf @ xf + self.App @ xp
 
         return self.x, b
 
@@ -168,7 +169,7 @@ class SystemOfEquations(Module):
         if dgdx is not None:
             adjoint_load += dgdx[self.f, ...]
         if dgdb is not None:
-            adjoint_load += self.Afp * dgdb[self.p, ...]
+            adjoint_load += self.Apf.T @ dgdb[self.p, ...]
 
         lam = np.zeros_like(self.x)
         lamf = -1.0 * self.module_LinSolve.solver.solve(adjoint_load, trans='T')
@@ -187,14 +188,14 @@ class SystemOfEquations(Module):
         dgdbf = np.zeros_like(adjoint_load)
         dgdup = np.zeros_like(self.x[self.p, ...])
         dgdbf -= lam[self.f, ...]
-        dgdup += self.Afp.T * lam[self.f, ...]
+        dgdup += self.Afp.T @ lam[self.f, ...]
 
         if dgdx is not None:
             dgdup += dgdx[self.p, ...]
 
         if dgdb is not None:
             dgdbf += dgdb[self.f, ...]
-            dgdup += self.App * dgdb[self.p, ...]
+            dgdup += self.App.T @ dgdb[self.p, ...]
 
         return dgdA, dgdbf, dgdup
 
